@@ -1,4 +1,6 @@
 """C28 MPI point-to-point matching and non-overtaking."""
+import os
+
 from hypothesis import strategies as st
 
 from .. import core, mpi2, p2p
@@ -79,6 +81,8 @@ class C28(core.Prop):
         return cases(12 if tier == "quick" else 16)
 
     def fixed_cases(self, tier):
+        if os.environ.get("VF_C28_NOFIXED"):       # sensitivity measurements of the random part alone
+            return []
         m = lambda **kw: dict({"s": 0, "d": 1, "tag": 0, "szc": 0, "szo": 0, "k0": 8}, **kw)
         res = []
         # two pending messages of one sender (different tags, then the same tag) to a late receiver using MPI_ANY_TAG, for every
